@@ -20,7 +20,20 @@ from common import spec, cfgpath
 
 SPECIAL = [u'b c', u'b?c', u'b#c', u'b%c', u'b%41c', u'é', u'b;c', u'b&c=d', u'b+c', u"x'y\"z", u'<x>', u'%2F',
            u'a?', u'?', u'%', u'b%3Fc', u'日本', u'b,c', u'b@c:d', u'~b!', u'b*c(d)']
-QUERY = {'none': '', 'empty': '', 'q1': 'x=1', 'q2': 'x=%3F&y=a+b', 'q3': 'q=caf%C3%A9&r=%2F&s=a%26b'}
+QUERY = {'none': '', 'empty': '', 'q1': 'x=1', 'q2': 'x=%3F&y=a+b', 'q3': 'q=caf%C3%A9&r=%2F&s=a%26b',
+         # raw (not percent-encoded) UTF-8 bytes, as a server hands them over in QUERY_STRING (latin-1 decoded)
+         'q4': u'q=caf\xe9 \u2603'.encode('utf8').decode('latin1').replace(' ', '+')}
+
+
+def norm_query(q):
+    """non-ASCII bytes may legitimately come back percent-encoded; everything else must be byte-identical"""
+    return ''.join(c if ord(c) < 128 else '%%%02X' % ord(c) for c in q).replace('%c3', '%C3')
+
+
+def same_query(a, b):
+    import re as _re
+    up = lambda m: m.group(0).upper()
+    return _re.sub(r'%[0-9a-fA-F]{2}', up, norm_query(a)) == _re.sub(r'%[0-9a-fA-F]{2}', up, norm_query(b))
 KIND = {'rootB': '/', 'staticB': '/a/b/', 'staticL': '/a/b', 'singleB': '/a/<x>/', 'singleL': '/a/<x>',
         'multiB': '/a/<r*>/', 'multiL': '/a/<r*>'}
 
@@ -85,13 +98,13 @@ def project(cfg, code, headers, calls, texts_rev, req_query_raw):
             segs = ['a'] + [v for v in (c['r'] or []) if v != '']
         return {'k': 'exec' if code == 200 else 'exec-but-%d' % code,
                 'params': [texts_rev.get(s, 'UNKNOWN:' + repr(s)) for s in segs],
-                'query_same': c['qs'] == req_query_raw, 'raw': None}
+                'query_same': same_query(c['qs'], req_query_raw), 'raw': None}
     if code in (301, 302, 303, 307, 308):
         loc = headers.get('Location')
         sp = urlsplit(loc)
         dec = unquote_to_bytes(sp.path).decode('utf8', 'replace')
         return {'k': 'redirect', 'loc': loc, 'dec_path': dec, 'loc_query': sp.query, 'fragment': sp.fragment,
-                'query_same': sp.query == req_query_raw and sp.fragment == ''}
+                'query_same': same_query(sp.query, req_query_raw) and sp.fragment == ''}
     if code == 404:
         return {'k': '404'}
     if code == 405:
